@@ -40,6 +40,8 @@ def tokens(x, strform="plain"):
         body = ["(", "PBASE", "(", str(i), ")", "PPA", "("] + ref(a) + [")", "PPB", "("] + ref(b) + [")", ")"]
     elif t in ("inode", "isubnode", "isubsub", "idl", "idr", "idia", "ione", "itwo"):
         body = [t.upper(), "(", str(i), ")"]
+    elif t == "irec":
+        body = ["IREC", "(", str(i), ","] + ref(a) + [")"]
     elif t in ("iholder", "isub"):
         body = [t.upper(), "("] + lst(a) + [","] + ref(b) + [")"]
     elif t in ("ilink", "ipair"):
